@@ -88,6 +88,29 @@ CLAIMED.update({
             "DESIGN.md §3 C12"),
 })
 
+CLAIMED.update({
+    "C14": ("As C01 on the Item API: encode_item_header for every length, ItemU1..I8 (scalar/list forms, unbounded symbolic ints), "
+            "ItemA/ItemB/ItemBOOLEAN constructor forms with symbolic contents across the 255/256 boundary, nested ItemL trees, typed "
+            "and generic Item.decode on fresh symbolic payload bytes - all compared byte-for-byte with the E5 reference and, "
+            "differentially, with the variables API; Item.from_value(int) over [-2^63-2, 2^64+1] must choose the narrowest unsigned/"
+            "signed width and keep the value; ItemF4/ItemF8 bounds as z3 FloatingPoint lemmas over every finite binary32/64.",
+            "Trusted: CrossHair + chx, z3, oracles/refe5.py. Outside: symbolic payload parts > 3 elements, nesting > 3, ItemJ only via the "
+            "codec table of C01, non-latin-1 text (the type cannot represent it), float text.",
+            "DESIGN.md §3 C14"),
+})
+
+CLAIMED.update({
+    "C02": ("The library decoders (ANYVALUE/Dynamic, typed variables, Item.decode) run on symbolic byte strings; the precondition is "
+            "that an independent E5 reference decoder (oracles/refe5.decode: 1..3 length bytes of any magnitude, all format codes, "
+            "nesting) accepts the string completely. Decoded value, consumed length and re-encoding (== canonical form) are compared "
+            "for every such string of length 2..5 (plus 6-byte lists; thorough: all 6-byte strings and 7-byte lists), non-minimal "
+            "length bytes for every typed class, and Dynamic with restricted / empty type lists. Every finite IEEE float payload is "
+            "covered by the z3 FloatingPoint lemma on the range guards (floats inside the symbolic strings are excluded there).",
+            "Trusted: CrossHair + chx, z3, oracles/refe5.py. Format bytes are substituted by the concrete value they are known to have on "
+            "each path (Dynamic.decode indexes a dict of classes; path-equivalent). Outside: longer encodings, JIS-8 through Dynamic.",
+            "DESIGN.md §3 C02"),
+})
+
 NOT_APPLICABLE = {
 }
 
